@@ -60,11 +60,24 @@ def gen_text(rng, tag):
     return rng.choice(['', '', ' ', '\n', '\t']) + f'{body}{tag}' + rng.choice(['', '', '\n', ' ', '\n\n', '\u3000'])
 
 
+LONG = 40961   # one write far longer than any plausible chunking threshold of the proxy, no line break in it
+
+
+def long_text(rng, tag):
+    """a single very long write: no line break at all, or a line break only near its start / at its very end"""
+    size = rng.choice([32769, LONG, 70001])
+    body = (rng.choice(['y', 'é', 'ab ']) if size < LONG else rng.choice(['y', 'ab '])) * size
+    return rng.choice(['', '', 'a\n', ' ']) + body[:size] + tag + rng.choice(['', '', '\n'])
+
+
 def gen_proxy_case(rng, big=False):
     n = rng.choice([0, 1, 2, 3, 5, 8] + ([20, 40] if big else []))
     ops = []
+    long_at = rng.randrange(n) if n and rng.random() < 0.005 else None
     for i in range(n):
-        if rng.random() < 0.35:
+        if i == long_at:
+            ops.append(['w', long_text(rng, f'@@0.{i}@')])
+        elif rng.random() < 0.35:
             ops.append(['f'])
         else:
             ops.append(['w', gen_text(rng, f'@@0.{i}@')])
@@ -79,16 +92,54 @@ def proxy_line(case):
     return 'LOG proxy pre=%s ops=%s' % (hx(case['pre']), ','.join('f' if op[0] == 'f' else 'w' + hx(op[1]) for op in case['ops']))
 
 
+class Messages(list):
+    """what the logger function received; `hung` names the call that did not come back"""
+    hung = None
+
+
+class ProxyWatchdog(BaseException):
+    pass
+
+
+PROXY_WATCHDOG_S = 3.0
+
+
 def proxy_real(case):
+    """the write/flush sequence on the real LoggerFileProxy, under a watchdog (a write or flush that does not return
+    within PROXY_WATCHDOG_S is recorded - a worker stuck there never reports - and the sequence is abandoned)"""
+    import signal
+    import threading
     from labtech.utils import LoggerFileProxy
-    got = []
+    got = Messages()
     p = LoggerFileProxy(got.append, case['pre'])
-    for op in case['ops']:
-        if op[0] == 'f':
-            p.flush()
-        else:
-            p.write(op[1])
-    return 'ok bufs=%s out=%s' % (','.join('x' + hx(b) for b in p.bufs), ','.join('x' + hx(m) for m in got)), got, list(p.bufs)
+    armed = threading.current_thread() is threading.main_thread()
+
+    def on_alarm(signum, frame):
+        raise ProxyWatchdog()
+    old = signal.signal(signal.SIGALRM, on_alarm) if armed else None
+    at = None
+    try:
+        for at, op in enumerate(case['ops']):
+            if armed:
+                signal.setitimer(signal.ITIMER_REAL, PROXY_WATCHDOG_S)
+            if op[0] == 'f':
+                p.flush()
+            else:
+                p.write(op[1])
+            if armed:
+                signal.setitimer(signal.ITIMER_REAL, 0)
+    except ProxyWatchdog:
+        op = case['ops'][at]
+        got.hung = 'operation %d (%s) did not return within %gs' % (
+            at, 'flush()' if op[0] == 'f' else 'write() of %d characters' % len(op[1]), PROXY_WATCHDOG_S)
+    finally:
+        if armed:
+            signal.setitimer(signal.ITIMER_REAL, 0)
+            signal.signal(signal.SIGALRM, old)
+    if got.hung:
+        return 'HANG ' + got.hung, got, []
+    bufs = [b for b in p.bufs]
+    return 'ok bufs=%s out=%s' % (','.join('x' + hx(b) for b in bufs), ','.join('x' + hx(m) for m in got)), got, bufs
 
 
 def proxy_monitor(case, got, bufs):
@@ -104,7 +155,10 @@ def proxy_monitor(case, got, bufs):
             cur.append(op[1])
     want = ['\n'.join(case['pre'] + b for b in g) for g in groups]
     v = []
-    if got != want:
+    if getattr(got, 'hung', None):
+        v.append('LoggerFileProxy: ' + got.hung + ' (%d of %d messages had reached the logger): the captured output is '
+                 'never delivered and the worker never reports' % (len(got), len(want)))
+    elif list(got) != want:
         v.append('LoggerFileProxy handed %d messages to the logger where the writes/flushes call for %d '
                  '(a write re-delivered, lost or reordered)' % (len(got), len(want)))
     return v   # (the buffer left behind is internal state: compared with the model only)
@@ -794,6 +848,9 @@ CORPUS_PROXY = [
     dict(kind='proxy', pre='P:', ops=[['w', 'a'], ['f'], ['w', 'b'], ['f']]),                       # D5a
     dict(kind='proxy', pre=OUT_PRE, ops=[['w', 'a'], ['w', '\n'], ['f'], ['f'], ['w', ' '], ['f']]),
     dict(kind='proxy', pre=OUT_PRE, ops=[['w', '\u200b'], ['w', '\x1f'], ['w', '\xa0\u3000'], ['f']]),
+    # one captured line far longer than 32 KiB, no line break in it; then many short lines totalling more than that
+    dict(kind='proxy', pre=OUT_PRE, ops=[['w', 'y' * LONG + '@@0.0@'], ['f'], ['w', 'a\n' + 'z' * LONG], ['w', 'b'], ['f']]),
+    dict(kind='proxy', pre=ERR_PRE, ops=[['w', 'line %d @@0.%d@ ' % (i, i) + 'x' * 80] for i in range(600)] + [['f'], ['f']]),
 ]
 CORPUS_FAKE = [
     # continue_on_failure=False: the failing task (its diagnostics flushed explicitly) and a round-mate both finish inside
@@ -834,10 +891,17 @@ def run(ctx):
 def eval_proxy(cases, driver, out):
     lines = [proxy_line(c) for c in cases]
     model = driver.run_lines(lines)
+    hangs = 0
     for c, line, m in zip(cases, lines, model):
+        has_long = any(op[0] == 'w' and len(op[1]) > 30000 for op in c['ops'])
+        if has_long and hangs >= 3:
+            continue    # three sequences with a very long write already hung (each costs the watchdog): found, not repeated
         obs, got, bufs = proxy_real(c)
+        hangs += bool(getattr(got, 'hung', None))
         out['evaluations'] += 1
         out['dist']['proxy_sequences'] += 1
+        if has_long:
+            out['dist']['proxy_sequences_with_a_write_over_30000_chars'] = out['dist'].get('proxy_sequences_with_a_write_over_30000_chars', 0) + 1
         for what in proxy_monitor(c, got, bufs):
             out['raw'].append((what, c))
         if obs != m:
